@@ -141,7 +141,7 @@ def main():
         ],
         "checks": checks,
         "not_applicable": na,
-        "notes": "Technique family: static analysis only. ./check <id> parses /repo's current working tree on every run; exit 2 + ANALYSIS-ERROR means the checker lost its anchors (never a verdict).",
+        "notes": "Technique family: static analysis only. ./check <id> parses /repo's current working tree on every run; exit 2 + ANALYSIS-ERROR means the checker lost its anchors (never a verdict). For every claimed property: an exported name of a5/__init__.py that is not a plain import of (or a pure delegation to) the analysed core function, and every function of the property's anchor files that carries a decorator other than the standard value-preserving ones, is reported as the UNDECIDED obligation <id>.0 (exit 0): wrappers and decorators are not analysed.",
     }
     with open(os.path.join(HERE, "MANIFEST.json"), "w") as fh:
         json.dump(m, fh, indent=1)
